@@ -16,6 +16,7 @@ import (
 	"github.com/DemoHn/Zn/pkg/exec"
 	r "github.com/DemoHn/Zn/pkg/runtime"
 	"github.com/DemoHn/Zn/pkg/syntax"
+	"github.com/DemoHn/Zn/pkg/syntax/zh"
 
 	"verifharness/internal/pool"
 )
@@ -164,7 +165,34 @@ func handleIDRange(raw json.RawMessage) interface{} {
 		cont = append(cont, int(c))
 	}
 	_ = strings.ToLower
-	return map[string]interface{}{"obs": "done", "runs": runs, "extra": extra, "cont": cont}
+	// third path: what the LEXER takes as part of a name - for every code point c the text "a" c "a" is tokenised; c counts as
+	// a name character when the first token is an identifier that covers at least "a" c
+	var lexruns [][2]int
+	start = -1
+	for cp := 0; cp <= 0x110000; cp++ {
+		in := false
+		if cp < 0x110000 && !(cp >= 0xD800 && cp <= 0xDFFF) {
+			l := syntax.NewLexer([]rune{'a', rune(cp), 'a'})
+			tk, err := zh.NextToken(l)
+			in = err == nil && tk.Type == zh.TypeIdentifier && tk.StartIdx == 0 && tk.EndIdx >= 2
+		}
+		if in && start < 0 {
+			start = cp
+		}
+		if !in && start >= 0 {
+			lexruns = append(lexruns, [2]int{start, cp - 1})
+			start = -1
+		}
+	}
+	kwg := []int{}
+	for k, v := range lexSym {
+		if len(k) >= 2 && k != "sp" && k != "bt" && k != "col" && k != "dot" && k != "eq" && k != "lq" && k != "rq" {
+			for _, c := range v {
+				kwg = append(kwg, int(c))
+			}
+		}
+	}
+	return map[string]interface{}{"obs": "done", "runs": runs, "extra": extra, "cont": cont, "lexruns": lexruns, "kwglyphs": kwg}
 }
 
 func init() {
